@@ -63,7 +63,7 @@ SRC_KERNELS = {
             "current_to_pbest_1_archive", "random_sample", "check_for_value", "sattolo_shuffle", "random_weighted_sample", "binary_search_interval"],
     "C08": ["get_levels_tree_from_i", "find_end_subtree_from_i", "find_id_args_from_i", "Tree_subtree_id", "Tree_subtree", "Tree_concat", "shrink_mutation",
             "Tree_get_levels", "Tree_get_max_level", "standard_crossover",
-            "find_first_difference_between_two", "common_region_two_trees", "Tree_get_common_region", "one_point_crossoverGP", "growing_mutation"],
+            "find_first_difference_between_two", "common_region_two_trees", "Tree_get_common_region", "one_point_crossoverGP", "growing_mutation", "Tree_get_args_id"],
     "C09": ["find_end_subtree_from_i", "find_id_args_from_i", "find_first_difference_between_two", "common_region_two_trees",
             "Tree_subtree_id", "Tree_subtree", "Tree_concat"],
     "C11": ["binary_search_interval", "check_for_value", "argsort_k", "tournament_selection", "proportional_selection", "rank_selection", "sattolo_shuffle", "random_sample", "random_weighted_sample"],
